@@ -17,7 +17,7 @@ from __future__ import annotations
 import ast
 
 from ..astutil import calls, dotted, is_self_attr, method_call, norm, walk
-from ..cfg import build_cfg, inline_self_methods
+from ..cfg import Builder, build_cfg, inline_self_methods
 from ..paths import BoolFacts, boolfacts_step, normal_only, walk_paths
 from ..report import Check
 from .common import SERVER_PROTO, TLS_PROTO, machine_findings, machine_floor, nodes_calling
@@ -36,6 +36,7 @@ EXPLANATION = (
     "of responses across segmentations are not decided. "
     "(S3, search-start) a separator search start kept on self is 0 or len(buffer)-k with k >= len(separator)-1 at every assignment. (S4, drain) after a non-empty recv() every normal path of the pump calls recv() again before returning. "
     "(S4, parked) every recv() result is bound and handed to the inner protocol before the next engine call."
+    ' (S5) connection_lost resets no attribute that is the receiver or an argument of a handler / upload-handler dispatch: a pending done-callback still finds what it hands to the handler.'
 )
 
 
@@ -588,11 +589,66 @@ def is_self_call(c: ast.Call, name: str) -> bool:
     return bool(mc and dotted(mc[0]) == "self" and mc[1] == name)
 
 
+def rule_s5(chk: Check, R: str = "S5") -> None:
+    """A request can be complete while its handler has not run yet: the chain is
+    consulted in a task and the handler is started from the task's done-callback.
+    The peer's close (on the PyOpenSSL backend: a close_notify in the same read
+    as the last request bytes) calls connection_lost *before* that callback.  If
+    connection_lost clears what the callback hands to the handler, the request is
+    silently dropped - but only for that segmentation."""
+    chk.rule(R, "connection_lost clears nothing a pending done-callback still hands to a handler: no attribute that is the receiver or an argument of a handler / upload-handler dispatch is reset there")
+    ci = chk.proj.cls(SERVER_PROTO)
+    cl = ci.methods.get("connection_lost")
+    if cl is None:
+        chk.ob(R, "connection_lost not overridden", True, nontrivial=False)
+        return
+    needed: dict[str, str] = {}
+    n_disp = 0
+    for m in ci.methods.values():
+        for c in calls(m.node):
+            d = dotted(c.func) or ""
+            mc = method_call(c)
+            if d == "self.request_handler" or (mc and dotted(mc[0]) == "self.upload_handler"):
+                n_disp += 1
+                for x in walk(c):
+                    if isinstance(x, ast.Attribute) and dotted(x.value) == "self":
+                        needed.setdefault(x.attr, f"{m.key}: `{norm(c)[:60]}`")
+    chk.require(R, ci.key, "handler dispatch sites", n_disp, 1, "the protocol dispatches to no handler")
+    g = Builder(chk.proj, inline_self_methods, 3).build(cl)
+    ok = True
+    n = 0
+    for node in g.nodes:
+        if node.kind != "stmt" or node.ast is None:
+            continue
+        a = node.ast
+        cleared = []
+        if isinstance(a, (ast.Assign, ast.AnnAssign)) and a.value is not None:
+            v = a.value
+            falsy = (isinstance(v, ast.Constant) and not v.value) or (isinstance(v, (ast.List, ast.Dict, ast.Set, ast.Tuple)) and not getattr(v, "elts", getattr(v, "keys", None))) or (isinstance(v, ast.Call) and dotted(v.func) in ("bytes", "bytearray", "dict", "list", "set") and not v.args)
+            if falsy:
+                for t in (a.targets if isinstance(a, ast.Assign) else [a.target]):
+                    if isinstance(t, ast.Attribute) and dotted(t.value) == "self":
+                        cleared.append(t.attr)
+        elif isinstance(a, ast.Delete):
+            cleared += [t.attr for t in a.targets if isinstance(t, ast.Attribute) and dotted(t.value) == "self"]
+        for attr in cleared:
+            n += 1
+            if attr in needed:
+                ok = False
+                chk.finding(
+                    R, cl.key, f"cleared-under-pending-callback:{attr}",
+                    f"connection_lost resets `self.{attr}`, which {needed[attr]} still reads when a pending middleware / handler task completes: a request whose last bytes and the peer's close arrive in one read is dropped (handler never runs), the same bytes in two reads are served",
+                    node.where(),
+                )
+    chk.ob(R, f"{cl.key}: no dispatch argument is cleared", ok, f"{n} attributes reset; dispatch reads {sorted(needed)}", evals=n + n_disp)
+
+
 def run(chk: Check) -> None:
     rule_s1(chk)
     rule_s2(chk)
     rule_s3(chk)
     rule_s4(chk)
+    rule_s5(chk)
     chk.trusted = [
         "CPython ast parser",
         "engine CFG / inliner / BoolFacts path pruning",
